@@ -11,7 +11,7 @@
    Every engine takes explicit fuel; fuel exhaustion is the distinguished value OutOfFuel (never a
    normal answer).  One fuel unit is consumed per *entry* of an engine, i.e. fuel bounds the depth
    of the Python call stack, exactly what RecursionError measures. *)
-From Coq Require Import List Bool Arith NArith.
+From Coq Require Import List Bool Arith NArith ZArith.
 Import ListNotations.
 
 Definition ident := N.           (* interned attribute names *)
@@ -388,44 +388,54 @@ Definition count_code (k : code) (l : list diag) : nat := length (filter (fun d 
 
 (* location: each declaration either has a source location (declared_at + filename) or not
    (RuntimeName, ImportedModule, a wrapper around one) *)
-Inductive decl_obj := Located (line col : Z) (file : option nat) | Unlocated.
+(* [edited] = the declaration lies in the edited text itself (n.filename == source.filename): its
+   position was read off the tree of the cursor-MARKED source *)
+Inductive decl_obj := Located (line col : Z) (file : option nat) (edited : bool) | Unlocated.
 Inductive decl_entry := EOne (d : decl_obj) | EAlts (ds : list decl_obj).
 
 Inductive loc_out := LOne (line col : Z) (file : option nat) | LAlts (ls : list (Z * Z * option nat)).
 Inductive loc_err := LAttributeError.
 
-Definition fmt_obj (d : decl_obj) : option (Z * Z * option nat) :=
-  match d with Located l c f => Some (l, c, f) | Unlocated => None end.
+(* len(SOURCE_MARK), util.py: '__supp_mark__' *)
+Definition mark_len : Z := 13%Z.
 
-(* assistant.py:97-104 on the pinned tree: n.declared_at / n.filename on every result (F17) *)
-Fixpoint format_as_is (res : list decl_entry) : loc_err + list loc_out :=
+(* assistant.py location/unmarked (F51): a position on the cursor's line right of the cursor was
+   shifted by the cursor mark *)
+Definition unmark (cur : Z * Z) (l c : Z) (edited : bool) : Z :=
+  if edited && Z.eqb l (fst cur) && Z.ltb (snd cur) c then (c - mark_len)%Z else c.
+
+Definition fmt_obj (cur : Z * Z) (d : decl_obj) : option (Z * Z * option nat) :=
+  match d with Located l c f e => Some (l, unmark cur l c e, f) | Unlocated => None end.
+
+(* assistant.py:97-104 before F17: n.declared_at / n.filename on every result *)
+Fixpoint format_as_is (cur : Z * Z) (res : list decl_entry) : loc_err + list loc_out :=
   match res with
   | [] => inr []
   | EOne d :: r =>
-      match fmt_obj d with
+      match fmt_obj cur d with
       | None => inl LAttributeError
-      | Some (l, c, f) => match format_as_is r with inl e => inl e | inr o => inr (LOne l c f :: o) end
+      | Some (l, c, f) => match format_as_is cur r with inl e => inl e | inr o => inr (LOne l c f :: o) end
       end
   | EAlts ds :: r =>
-      if forallb (fun d => match fmt_obj d with Some _ => true | None => false end) ds
-      then match format_as_is r with inl e => inl e | inr o => inr (LAlts (somes (map fmt_obj ds)) :: o) end
+      if forallb (fun d => match fmt_obj cur d with Some _ => true | None => false end) ds
+      then match format_as_is cur r with inl e => inl e | inr o => inr (LAlts (somes (map (fmt_obj cur) ds)) :: o) end
       else inl LAttributeError
   end.
 
 (* repaired: results without a source location are skipped; an alternative list that becomes
    empty is dropped *)
-Fixpoint format_fixed (res : list decl_entry) : list loc_out :=
+Fixpoint format_fixed (cur : Z * Z) (res : list decl_entry) : list loc_out :=
   match res with
   | [] => []
   | EOne d :: r =>
-      match fmt_obj d with
-      | None => format_fixed r
-      | Some (l, c, f) => LOne l c f :: format_fixed r
+      match fmt_obj cur d with
+      | None => format_fixed cur r
+      | Some (l, c, f) => LOne l c f :: format_fixed cur r
       end
   | EAlts ds :: r =>
-      match somes (map fmt_obj ds) with
-      | [] => format_fixed r
-      | ls => LAlts ls :: format_fixed r
+      match somes (map (fmt_obj cur) ds) with
+      | [] => format_fixed cur r
+      | ls => LAlts ls :: format_fixed cur r
       end
   end.
 
